@@ -9,7 +9,7 @@ def hx(b):
 def unhx(s):
     return b"" if s == "-" else bytes.fromhex(s)
 
-def mkcase(steps, pw=None, app=(), tbl=None, default=None, conns=1, trace=True, handler=None, tls=None, rule=None, prep=None, cfail=None):
+def mkcase(steps, pw=None, app=(), tbl=None, default=None, conns=1, trace=True, handler=None, tls=None, rule=None, prep=None, cfail=None, authvia=None):
     f = ["pw=" + ("-" if pw is None else "h" + hx(pw)),
          "app=" + (",".join(hx(a) for a in app) if app else "-"),
          "tbl=" + (";".join("%s=%s" % (k, v) for k, v in tbl.items()) if tbl else "-"),
@@ -23,6 +23,8 @@ def mkcase(steps, pw=None, app=(), tbl=None, default=None, conns=1, trace=True, 
         f.append("rule=" + hx(rule))
     if prep:
         f.append("prep=" + prep)
+    if authvia:
+        f.append("authvia=" + authvia)
     if cfail:
         f.append("cfail=" + ",".join("1" if x else "0" for x in cfail))
     return " ".join(f)
